@@ -12,7 +12,7 @@ from bec2format.bec2file import crc8404B
 
 LEVEL = "model_checking"
 RULE = ("state graph of the CRC automaton: case ('step', hi) = all 256 start values hi*256..hi*256+255 x all 256 "
-        "byte values, each a call crc8404B(bytes([b]), s) compared with the bit-serial step; ('comp', s) = all 65536 "
+        "byte values, each a call crc8404B(bytes([b]), s) compared with the bit-serial step, plus the empty input for every start value (base case); ('comp', s) = all 65536 "
         "two-byte strings from start s: crc(ab,s) == crc(b, crc(a,s)) == reference; ('default2',) all strings of "
         "length <= 2 from the default start; ('long', i) long strings end to end. Every case is distinct and non-trivial "
         "(it executes real transitions); counts are the number of transitions actually executed.")
@@ -46,6 +46,12 @@ def run_case(ctx, case):
     if kind == "step":
         hi = case[1]
         for s in range(hi << 8, (hi << 8) + 256):
+            # base case of the induction: no input byte leaves the start value unchanged (for every form of empty input)
+            for empty in (b"", bytearray(), []):
+                if crc8404B(empty, s) != s:
+                    o.viol("empty|start-not-returned", "crc8404B(%r, start=%04X) = %r, must be the start value" % (empty, s, crc8404B(empty, s)), start=s)
+                    o.cls = "mismatch"
+                    return o
             for b in range(256):
                 got = crc8404B(bytes([b]), s)
                 n += 1
